@@ -110,6 +110,11 @@ func bodyBound(layout []int) int {
 	if nvar > 0 {
 		return sx.Param("maxBodyVar", 7)
 	}
+	if len(layout) >= 2 {
+		// thorough widens the set of multi-field layouts (36 pairs + 27 triples
+		// instead of 11 pairs); the longer bodies go to the single-field layouts
+		return sx.Param("maxBodyMulti", 12)
+	}
 	return sx.Param("maxBody", 16)
 }
 
